@@ -61,6 +61,11 @@ Init(g0, l0, o0) ==
   /\ pout = Absent /\ lout = Absent /\ clock = 2 /\ last = [ok |-> TRUE, regenerated |-> FALSE, stage |-> "none"]
 
 EditGrammar(v) == gv' = v /\ gm' = clock /\ clock' = clock + 1 /\ UNCHANGED <<lv, lm, opts, pout, lout, last>>
+\* the grammar is rewritten within the same clock tick as the last write of the generated parser
+\* (coarse file-system timestamps, a script that writes the grammar and builds at once, restored
+\* mtimes): the output is then NOT newer than its source and has to be regenerated
+EditGrammarSameTick(v) == gv' = v /\ gm' = (IF pout.present THEN pout.mtime ELSE clock) /\ clock' = clock + 1
+                          /\ UNCHANGED <<lv, lm, opts, pout, lout, last>>
 EditLexer(v)   == lv' = v /\ lm' = clock /\ clock' = clock + 1 /\ UNCHANGED <<gv, gm, opts, pout, lout, last>>
 SetOpt(k, x)   == opts' = [opts EXCEPT ![k] = x] /\ UNCHANGED <<gv, gm, lv, lm, pout, lout, clock, last>>
 
